@@ -47,15 +47,26 @@ def check_batch(case, ctx):
             else:
                 det.update(X)
             obs = det.drift_state
+        probe = float(np.random.random())  # generator position after the call = number of random draws consumed
 
         def stepfn(m, ch):
             np.random.seed(base + i)
             if i == 0 and case.get("use_set_reference", True):
                 m.set_reference(X)
-                return {"state": None, "kl": None, "crit": m.crit}
-            return m.step(X, ch)
+                o = {"state": None, "kl": None, "crit": m.crit}
+            else:
+                o = m.step(X, ch)
+            o["probe"] = float(np.random.random())
+            return o
 
         verdict, outs = fk.advance(stepfn, lambda o: o["state"] == obs)
+        if verdict == "ok" and all(o["probe"] != probe for o in outs):
+            raise Violation(
+                "kdq-random-draws",
+                f"KdqTreeBatch({p}) batch {i}: the call did not consume the documented random numbers (bootstrap_samples x 2n leaf draws when a reference is installed, none otherwise)",
+                detector="KdqTreeBatch",
+                case=_trim(case, i),
+            )
         if verdict == "mismatch":
             raise Violation(
                 "kdq-batch-decision-mismatch",
@@ -131,12 +142,22 @@ def check_stream(case, ctx):
             np.random.seed(base + i)
             det.update(Xin)
             obs = det.drift_state
+        probe = float(np.random.random())
 
         def stepfn(m, ch):
             np.random.seed(base + i)
-            return m.step(X[0], ch)
+            o = m.step(X[0], ch)
+            o["probe"] = float(np.random.random())
+            return o
 
         verdict, outs = fk.advance(stepfn, lambda o: o["state"] == obs)
+        if verdict == "ok" and all(o["probe"] != probe for o in outs):
+            raise Violation(
+                "kdq-random-draws",
+                f"KdqTreeStreaming({p}) sample {i}: the call did not consume the documented random numbers (bootstrap draws only when the reference window completes)",
+                detector="KdqTreeStreaming",
+                case=_trim(case, i),
+            )
         if verdict == "mismatch":
             o = outs[0]
             raise Violation(
@@ -253,6 +274,6 @@ PROPERTY = {
     ],
     "subchecks": [
         SubCheck("batch", check_batch, strategy=strat_batch, nontrivial=lambda L: "drifts>=2" in L, quick=300, thorough=6000, shards_quick=8, describe=_desc),
-        SubCheck("streaming", check_stream, strategy=strat_stream, nontrivial=lambda L: "interrupted-run+drift" in L, quick=400, thorough=8000, shards_quick=16, describe=_desc),
+        SubCheck("streaming", check_stream, strategy=strat_stream, nontrivial=lambda L: "interrupted-run+drift" in L, quick=560, thorough=9000, shards_quick=16, describe=_desc),
     ],
 }
